@@ -194,6 +194,25 @@ def run(ctx):
                 ctx.fail(sc.key_of("src", mode.encode() + src),
                          "XGo scanner and go/scanner differ (%s) on %r (mode %s)" % (what, src, mode),
                          {"src_repr": repr(src), "src_hex": src.hex(), "mode": mode, "group": name, "xgo": a[:400], "go": b[:400]})
+    # the hypothesis of C16_xgo_eq_go_on_go_lexemes, evaluated by the extracted model: wherever it
+    # holds the two real scanners must return exactly the same tokens and the same error sequence
+    xcases = [cases[i] for i in range(0, len(cases), 2)]                    # the XGo line of every (src, mode)
+    pred = R.run_pred(xcases)
+    gl = {"go_like": 0, "go_like_in_sequences": 0, "sequences": 0}
+    for k, (g, _) in enumerate(pred):
+        i = 2 * k
+        name = meta[i][0]
+        if name == "go-lexeme-sequence":
+            gl["sequences"] += 1
+            gl["go_like_in_sequences"] += int(g)
+        if not g:
+            continue
+        gl["go_like"] += 1
+        if impl[i][0] != impl[i + 1][0]:
+            src, mode = sc.src_of(cases[i]), cases[i][1]
+            ctx.fail(sc.key_of("src", mode.encode() + src),
+                     "go_like holds in the model but the real scanners differ on %r (mode %s)" % (src, mode),
+                     {"src_repr": repr(src), "src_hex": src.hex(), "mode": mode, "group": name, "xgo": impl[i][0][:400], "go": impl[i + 1][0][:400]})
     distinct = len(set(c[3:] for c in cases))
     ctx.cover(evaluations=len(cases), distinct_nontrivial=distinct,
               samples=[{"case": cases[k], "impl": impl[k][0][:160]} for k in (40, len(nums) * 4 + 200, len(cases) - 8 * len(FINDING_SET) - 5, len(cases) - 3)],
@@ -205,7 +224,7 @@ def run(ctx):
                    "scanner's output has no extension token; numeric/string spellings containing '...' are left to the finding set. "
                    "distinct = distinct source" %
                    (len(nums), ctx.n(4, 5), b" ".join(NUM_ALPHA).decode(), len(strs), len(ESC_ATOMS), len(seqs), len(mal), len(FINDING_SET)),
-              exhaustive_part=4 * (len(nums) + len(strs)), compare_stats=stats, compared_per_group=per_group,
+              exhaustive_part=4 * (len(nums) + len(strs)), compare_stats=stats, theorem_hypothesis_stats=gl, compared_per_group=per_group,
               sequence_shape_histogram=dict(sorted(shapes.items())))
     ctx.trust("modelled, not verified: scanner/scanner.go and $GOROOT/src/go/scanner/scanner.go (one Gallina text with a dialect switch), "
               "each tied to its implementation by the differential run")
